@@ -1,6 +1,7 @@
 import OnetVerif.Model.Util
 import OnetVerif.Model.C03Sha1
 import OnetVerif.Model.C03Wire
+import OnetVerif.Model.C03Fields
 import OnetVerif.Generated
 /-! Model for property C03 — wire integrity (core-only: no Mathlib import, so the driver links).
 
@@ -906,6 +907,12 @@ def step (s : State) (toks : List String) : State × String :=
       | none => (s, "err")
       | some vs => (s, "ok (" ++ Wire.Text.showVals vs ++ ") " ++ Wire.Text.hexOf (Wire.encMsg 1 ts vs))
     | _, _ => (s, "bad-op")
+  | ["fids", desc] =>
+    -- `ProtoFields` of a struct type described by its fields (`p<tag>`, `e<tag>(…)`): the field numbers in
+    -- field order (or the panic on a repeated number), and whether the decoder's cursor finds every field
+    match Fields.Text.parse desc with
+    | some fs => (s, Fields.Text.fidsOp fs)
+    | none => (s, "bad-op")
   | ["lloop", fr, after] =>
     match hexList fr, after.toNat? with
     | some fr, some n =>
